@@ -17,6 +17,112 @@ def is_overlap(m, f, k):
     return k <= min(len(m), len(f)) and m[len(m) - k:] == f[:k]
 
 
+PROGRAM = """use assert_struct::assert_struct;
+pub fn fail_here() -> String {
+    let r = std::panic::catch_unwind(|| {
+        let _g = assert_struct::__macro_support::PlainOutputGuard::new();
+        assert_struct!(5, > 7); // MARKER-é
+    });
+    match r { Err(e) => e.downcast_ref::<String>().cloned().unwrap_or_default(), Ok(()) => String::new() }
+}
+"""
+MAIN = PROGRAM + 'fn main() { println!("BEGIN\\n{}\\nEND", fail_here()); }\n'
+TESTFILE = PROGRAM + '#[test] fn t() { println!("BEGIN\\n{}\\nEND", fail_here()); }\n'
+
+
+def cargo_layouts(ck):
+    """What cargo and rustc really hand to the macro (CARGO_MANIFEST_DIR, file!()) in real crate layouts: each
+    layout is built by cargo and run; the report must show the invoking file's own source line."""
+    import subprocess
+    from vlib import ENV, REPO
+    base = os.path.join(CACHE, "scratch", "ws-%d" % os.getpid())
+    shutil.rmtree(base, ignore_errors=True)
+    tdir = os.path.join(CACHE, "target", "ws")
+    dep = 'assert-struct = { path = "%s/assert-struct" }' % REPO
+
+    def pkg(d, name, extra=""):
+        os.makedirs(os.path.join(d, "src"), exist_ok=True)
+        open(os.path.join(d, "Cargo.toml"), "w").write('[package]\nname = "%s"\nversion = "0.0.0"\nedition = "2021"\npublish = false\n\n[dependencies]\n%s\n%s' % (name, dep, extra))
+
+    def ws_root(d, members, also_package=None):
+        os.makedirs(d, exist_ok=True)
+        txt = '[workspace]\nmembers = [%s]\nresolver = "2"\n' % ", ".join('"%s"' % m for m in members)
+        if also_package:
+            os.makedirs(os.path.join(d, "src"), exist_ok=True)
+            txt = '[package]\nname = "%s"\nversion = "0.0.0"\nedition = "2021"\npublish = false\n\n[dependencies]\n%s\n\n' % (also_package, dep) + txt
+        open(os.path.join(d, "Cargo.toml"), "w").write(txt)
+        shutil.copy(os.path.join(REPO, "Cargo.lock"), os.path.join(d, "Cargo.lock"))
+
+    layouts = []   # (name, cwd, cargo args, finding key or None)
+
+    def single(name, dirname, finding=None):
+        d = os.path.join(base, name, dirname)
+        pkg(d, "p_" + name.replace("-", "_"), "\n[workspace]\n")
+        shutil.copy(os.path.join(REPO, "Cargo.lock"), os.path.join(d, "Cargo.lock"))
+        open(os.path.join(d, "src", "main.rs"), "w").write(MAIN)
+        layouts.append((name, d, ["run", "-q"], finding))
+
+    single("single-package", "proj")
+    single("package-dir-named-src", "src", "spurious-overlap")
+    single("package-dir-ends-with-src", "mysrc")
+    # virtual workspace, member at depth 1 and depth 3; run from the root and from the member
+    d = os.path.join(base, "member", "ws")
+    ws_root(d, ["a", "crates/deep/b", "ws"])
+    for m in ("a", "crates/deep/b", "ws"):
+        pkg(os.path.join(d, m), "m_" + m.replace("/", "_"))
+        open(os.path.join(d, m, "src", "main.rs"), "w").write(MAIN)
+    layouts.append(("workspace-member", d, ["run", "-q", "-p", "m_a"], None))
+    layouts.append(("workspace-member-run-from-member-dir", os.path.join(d, "a"), ["run", "-q"], None))
+    layouts.append(("nested-member", d, ["run", "-q", "-p", "m_crates_deep_b"], None))
+    layouts.append(("member-named-like-the-workspace-dir", d, ["run", "-q", "-p", "m_ws"], None))
+    # integration test and example of a member
+    os.makedirs(os.path.join(d, "a", "tests"), exist_ok=True)
+    open(os.path.join(d, "a", "tests", "it.rs"), "w").write(TESTFILE)
+    os.makedirs(os.path.join(d, "a", "examples"), exist_ok=True)
+    open(os.path.join(d, "a", "examples", "ex.rs"), "w").write(MAIN)
+    layouts.append(("integration-test-of-a-member", d, ["test", "-q", "-p", "m_a", "--test", "it", "--", "--nocapture"], None))
+    layouts.append(("example-of-a-member", d, ["run", "-q", "-p", "m_a", "--example", "ex"], None))
+    # root package that is also the workspace root, with a member
+    d2 = os.path.join(base, "rootpkg", "top")
+    ws_root(d2, ["sub"], also_package="top_pkg")
+    open(os.path.join(d2, "src", "main.rs"), "w").write(MAIN)
+    pkg(os.path.join(d2, "sub"), "sub_pkg")
+    open(os.path.join(d2, "sub", "src", "main.rs"), "w").write(MAIN)
+    layouts.append(("root-package-of-a-workspace", d2, ["run", "-q", "-p", "top_pkg"], None))
+    layouts.append(("member-of-a-workspace-with-root-package", d2, ["run", "-q", "-p", "sub_pkg"], None))
+    # a path dependency outside the workspace: the compiler's file string is absolute
+    d3 = os.path.join(base, "extdep", "app")
+    ext = os.path.join(base, "extdep", "elsewhere", "lib_ext")
+    pkg(ext, "lib_ext")
+    open(os.path.join(ext, "src", "lib.rs"), "w").write(PROGRAM)
+    pkg(d3, "app", 'lib_ext = { path = "%s" }\n\n[workspace]\n' % ext)
+    shutil.copy(os.path.join(REPO, "Cargo.lock"), os.path.join(d3, "Cargo.lock"))
+    open(os.path.join(d3, "src", "main.rs"), "w").write('fn main() { println!("BEGIN\\n{}\\nEND", lib_ext::fail_here()); }\n')
+    layouts.append(("path-dependency-outside-the-workspace", d3, ["run", "-q"], None))
+    if ck.tier == "quick":
+        layouts = [l for l in layouts if l[0] in ("single-package", "workspace-member", "nested-member", "integration-test-of-a-member", "path-dependency-outside-the-workspace", "package-dir-named-src")]
+    env = dict(ENV)
+    env["CARGO_TARGET_DIR"] = tdir
+    dist = {}
+    try:
+        for (name, cwd, args, finding) in layouts:
+            p = subprocess.run(["cargo"] + args[:1] + ["--offline"] + args[1:], cwd=cwd, capture_output=True, text=True, env=env, timeout=1800)
+            out = p.stdout
+            msg = out.split("BEGIN\n", 1)[1].split("\nEND", 1)[0] if "BEGIN\n" in out else ""
+            shown = "MARKER-é" in msg and "assert_struct! failed" in msg
+            dist["%s: %s" % (name, "snippet shown" if shown else "no snippet")] = 1
+            if not msg:
+                raise RuntimeError("mini-workspace %s did not build / run: %s" % (name, (p.stderr or out)[-1500:]))
+            if not shown:
+                ck.report(finding or ("cargo-layout:" + name), "the report of a failing assertion does not show the invoking file's source line in a crate layout built by cargo (%s)" % name,
+                          dict(layout=name, cargo=" ".join(args), directory=cwd.replace(base, "<scratch>"), message=msg[:800]))
+        ck.corr_record("T3 crate layouts built by cargo (single package, workspace members at several depths, run from different directories, integration test, example, root package with members, path dependency outside the workspace, package directory named `src`): the report must show the source line",
+                       len(layouts), len(layouts), 0, dist, samples=[dict(layout=layouts[0][0])], exhaustive=True,
+                       rule="fixed list of layouts (6 in the quick tier, %d in the thorough tier), each built and run by cargo; CARGO_MANIFEST_DIR and file!() are whatever cargo and rustc provide" % (len(layouts) if ck.tier != "quick" else 13))
+    finally:
+        shutil.rmtree(base, ignore_errors=True)
+
+
 def run(ck):
     ck.prove(["AsModel.Theorems.C18"])
     ck.build_harness("rt")
@@ -130,8 +236,9 @@ def run(ck):
                        rule="a sample of the layouts above materialised as real directories and files; every case distinct")
     finally:
         shutil.rmtree(scratch, ignore_errors=True)
+    cargo_layouts(ck)
     ck.assumptions += [
-        "cargo's conventions are modelled: CARGO_MANIFEST_DIR = wsroot/pkg (absolute), file!() = pkg/src relative to the workspace root, or absolute for path dependencies outside it",
+        "cargo's conventions are modelled: CARGO_MANIFEST_DIR = wsroot/pkg (absolute), file!() = pkg/src relative to the workspace root, or absolute for path dependencies outside it; the mini-workspaces built by cargo validate the convention on real layouts",
         "std::path::Path::components / PathBuf::push are modelled for Unix paths (AsModel.Runtime.components, pushPath) and tied by the same differential run",
     ]
     ck.trusted.append("model of Unix Path::components / PathBuf::push (validated by T4 on every run)")
